@@ -113,6 +113,9 @@ MUTANTS = [
     M('sema:qdecl:global-check-dropped', 'sema', ['C13'], 'stmt_to_asg_stmt', '            if !context.symbol_table().in_global_scope() {\n                context.insert_error(NotInGlobalScopeError, &q_decl);\n            }', ''),
     M('sema:def:global-check-inverted', 'sema', ['C13'], 'stmt_to_asg_stmt', '            if !context.symbol_table().in_global_scope() {\n                context.insert_error(NotInGlobalScopeError, &name_node);\n            }', '            if context.symbol_table().in_global_scope() {\n                context.insert_error(NotInGlobalScopeError, &name_node);\n            }'),
     M('sema:delay:duration-check-dropped', 'sema', ['C13'], 'stmt_to_asg_stmt', 'if !matches!(duration.get_type(), Type::Duration(_)) {', 'if false {'),
+    # ---- C07 redeclarations are marked in the graph
+    M('sema:alias:redeclaration-hidden', 'sema', ['C07'], 'stmt_to_asg_stmt', 'Some(asg::Alias::new(symbol_id, rhs).to_stmt())', 'Some(asg::Alias::new(context.symbol_table().lookup(name_str.as_ref()).to_symbol_id(), rhs).to_stmt())'),
+    M('sema:output-decl:redeclaration-hidden', 'sema', ['C07'], 'io_declaration_statement_to_asg_stmt', 'asg::OutputDeclaration::new(symbol_id).to_stmt()', 'asg::OutputDeclaration::new(context.symbol_table().lookup(name_str.as_ref()).to_symbol_id()).to_stmt()'),
     # ---- PARSER marker discipline
     M('parser:marker:complete-wrong-slot', 'parser', ['C01', 'C02'], 'Marker::complete', 'let idx = self.pos as usize;', 'let idx = (self.pos as usize) + 1;'),
     M('parser:marker:abandon-always-pops', 'parser', ['C01', 'C02'], 'Marker::abandon', 'if idx == p.events.len() - 1 {', 'if idx <= p.events.len() - 1 {'),
